@@ -38,10 +38,12 @@ def branchPair (alu : String) : Option (String × String) :=
   | some op => (PV.Gen.negCmpSuffix.find? (·.1 == op)).map (fun p => (suffix, p.2))
   | none => none
 
-/-- every (condition suffix, emitted branch suffix) pair the regenerated tables yield: `if a <op> b` and `if not a <op> b` -/
-def branchPairs : List (String × String) :=
-  let plain := PV.Gen.cmpSuffix.filterMap (fun r => (PV.Gen.negCmpSuffix.find? (·.1 == r.1)).map (fun p => (r.2, p.2)))
-  plain ++ plain.map (fun p => (p.2, p.1))
+/-- every (condition suffix, emitted branch suffix, operand count) the regenerated tables yield: `if a <op> b`, `if not a <op> b`,
+    and the truth tests `if x` / `if not x` -/
+def branchPairs : List (String × String × Nat) :=
+  let plain := PV.Gen.cmpSuffix.filterMap (fun r => (PV.Gen.negCmpSuffix.find? (·.1 == r.1)).map (fun p => (r.2, p.2, 2)))
+  -- `if x:` is `beqz x ELSE`, `if not x:` is `bnez x ELSE`
+  plain ++ plain.map (fun p => (p.2.1, p.1, 2)) ++ [("nez", "eqz", 1), ("eqz", "nez", 1)]
 
 abbrev CStmt := PV.Core.Stmt
 abbrev Reg := PV.Core.Reg
@@ -81,6 +83,16 @@ partial def flatE (zero : V) (negV : V → V) (fs : FS) (target : Option Nat) : 
     let (fs1, code, os) ← flatArgs zero negV fs args
     let (fs2, t) := match target with | some t => (fs1, t) | none => fs1.fresh
     pure (fs2, code ++ [PV.Core.Stmt.load t q os], .reg t)
+  | .ifexp c a b => do
+    -- `u if c else v`: test, then both arms, then `select` (the arms of a core program have no effects, so evaluating both is
+    -- what evaluating the chosen one is)
+    let (fs1, cc, oc) ← flatE zero negV fs none c
+    let (fs2, ca, oa) ← flatE zero negV fs1 none a
+    let (fs3, cb, ob) ← flatE zero negV fs2 none b
+    if isNum oc then none else
+    let (fs4, t) := match target with | some t => (fs3, t) | none => fs3.fresh
+    -- the front end emits the code of the `else` arm twice (F-C01-h); for the effect-free arms of a core program that is harmless
+    pure (fs4, cc ++ ca ++ cb ++ cb ++ [PV.Core.Stmt.alu t "select" [oc, oa, ob]], .reg t)
   | .prim op args => do
     let (fs1, code, os) ← flatArgs zero negV fs args
     if os.all isNum then none   -- constant call: folded by the front end
@@ -96,15 +108,19 @@ partial def flatArgs (zero : V) (negV : V → V) (fs : FS) : List (PV.Src.Expr V
     pure (fs2, c1 ++ c2, o1 :: os)
 end
 
-/-- a test that is a comparison (possibly under one `not`): (operand code, condition, branch suffix, operands) -/
-def flatTest (zero : V) (negV : V → V) (fs : FS) : PV.Src.Expr V → Option (FS × List (CStmt V) × String × String × Opnd Reg V × Opnd Reg V)
+/-- a test that is a comparison (possibly under one `not`), or — for `if` only (`truth`) — a variable, a device read or an
+    `and` / `or`, tested for being non-zero: (operand code, condition, branch suffix, operands) -/
+def flatTest (zero : V) (negV : V → V) (truth : Bool) (fs : FS) : PV.Src.Expr V → Option (FS × List (CStmt V) × String × String × List (Opnd Reg V))
   | .bin op a b =>
     if cmpNames.contains op then do
       let (fs1, ca, oa) ← flatE zero negV fs none a
       let (fs2, cb, ob) ← flatE zero negV fs1 none b
       let (c, neg) ← branchPair op
       if isNum oa && isNum ob then none else
-      pure (fs2, ca ++ cb, c, neg, oa, ob)
+      pure (fs2, ca ++ cb, c, neg, [oa, ob])
+    else if truth && (op == "and" || op == "or") then do
+      let (fs1, code, o) ← flatE zero negV fs none (.bin op a b)
+      pure (fs1, code, "nez", "eqz", [o])           -- `if p and q:` is `beqz t ELSE`
     else none
   | .un "not" (.bin op a b) =>
     if cmpNames.contains op then do
@@ -115,8 +131,19 @@ def flatTest (zero : V) (negV : V → V) (fs : FS) : PV.Src.Expr V → Option (F
       -- the source condition is the negated comparison; the emitted branch uses the plain suffix.  Under `not` the front
       -- end also materialises the comparison into a temporary that nothing reads (the comparison's parent is not the `if`)
       let (fs3, t) := fs2.fresh
-      pure (fs3, ca ++ cb ++ [PV.Core.Stmt.alu t op [oa, ob]], neg, c, oa, ob)
+      pure (fs3, ca ++ cb ++ [PV.Core.Stmt.alu t op [oa, ob]], neg, c, [oa, ob])
+    else if truth && (op == "and" || op == "or") then do
+      let (fs1, code, o) ← flatE zero negV fs none (.bin op a b)
+      pure (fs1, code, "eqz", "nez", [o])           -- `if not (p and q):` is `bnez t ELSE`
     else none
+  | .un "not" (.gvar x) => if truth then (fs.lookup x).map (fun r => (fs, [], "eqz", "nez", [Opnd.reg r])) else none
+  | .un "not" (.read q args) => if truth then do
+      let (fs1, code, o) ← flatE zero negV fs none (.read q args)
+      pure (fs1, code, "eqz", "nez", [o]) else none
+  | .gvar x => if truth then (fs.lookup x).map (fun r => (fs, [], "nez", "eqz", [Opnd.reg r])) else none   -- `if x:` is `beqz x ELSE`
+  | .read q args => if truth then do
+      let (fs1, code, o) ← flatE zero negV fs none (.read q args)
+      pure (fs1, code, "nez", "eqz", [o]) else none
   | _ => none
 
 def isOperand : PV.Src.Expr V → Bool
@@ -140,12 +167,12 @@ partial def flatS (zero one : V) (negV : V → V) (isOne isNeg : V → Bool) (fs
     let (fs1, code, os) ← flatArgs zero negV fs args
     pure (fs1, code ++ [PV.Core.Stmt.store q os])
   | .ite c t e => do
-    let (fs1, pre, cnd, neg, oa, ob) ← flatTest zero negV fs c
+    let (fs1, pre, cnd, neg, os) ← flatTest zero negV true fs c
     let (fs2, ct) ← flatB zero one negV isOne isNeg fs1 t
-    if e.isEmpty then pure (fs2, pre ++ [PV.Core.Stmt.ifThen cnd neg oa ob (seqAll ct)])
+    if e.isEmpty then pure (fs2, pre ++ [PV.Core.Stmt.ifThen cnd neg os (seqAll ct)])
     else do
       let (fs3, ce) ← flatB zero one negV isOne isNeg fs2 e
-      pure (fs3, pre ++ [PV.Core.Stmt.ite cnd neg oa ob (seqAll ct) (seqAll ce)])
+      pure (fs3, pre ++ [PV.Core.Stmt.ite cnd neg os (seqAll ct) (seqAll ce)])
   | .while c body =>
     match c with
     | .num v =>
@@ -154,10 +181,10 @@ partial def flatS (zero one : V) (negV : V → V) (isOne isNeg : V → Bool) (fs
         pure (fs1, [PV.Core.Stmt.loop (seqAll cb)])
       else none
     | _ => do
-      let (fs1, pre, cnd, neg, oa, ob) ← flatTest zero negV fs c
+      let (fs1, pre, cnd, neg, os) ← flatTest zero negV false fs c
       if !pre.isEmpty then none else do         -- operands of a loop test must be plain operands (re-evaluated each iteration)
         let (fs2, cb) ← flatB zero one negV isOne isNeg fs1 body
-        pure (fs2, [PV.Core.Stmt.while cnd neg oa ob (seqAll cb)])
+        pure (fs2, [PV.Core.Stmt.while cnd neg os (seqAll cb)])
   | .forRange _ x start stop step body => do
     -- `range` arguments are evaluated once, before the loop; the loop variable lives in the iterator's register; the exit
     -- test is `bge` (`ble` for a negative constant step) at the loop label and the increment is the last thing in the body
@@ -169,11 +196,13 @@ partial def flatS (zero one : V) (negV : V → V) (isOne isNeg : V → Bool) (fs
     let (c, neg) := if down then ("gt", "le") else ("lt", "ge")
     let (fs5, cb) ← flatB zero one negV isOne isNeg fs4 body
     pure (fs5, c1 ++ c2 ++ c3 ++ [PV.Core.Stmt.alu rx "move" [o1],
-      PV.Core.Stmt.while c neg (.reg rx) o2 (seqAll (cb ++ [PV.Core.Stmt.alu rx "add" [.reg rx, o3]]))])
+      PV.Core.Stmt.while c neg [.reg rx, o2] (seqAll (cb ++ [PV.Core.Stmt.alu rx "add" [.reg rx, o3]]))])
   | .brk => some (fs, [PV.Core.Stmt.brk])       -- the generator only places these inside `while` loops
   | .cont => some (fs, [PV.Core.Stmt.cont])
   | .yield => some (fs, [PV.Core.Stmt.yield])
-  | .sleep (.num v) => some (fs, [PV.Core.Stmt.sleep (.num v)])
+  | .sleep e => do
+    let (fs1, code, o) ← flatE zero negV fs none e
+    pure (fs1, code ++ [PV.Core.Stmt.sleep o])
   | .pass => some (fs, [])
   | _ => none
 
